@@ -306,6 +306,31 @@ var prefixProp = vp.Register(vp.Prop[PrefixCase]{
 				ip = gen.Addr4().Draw(t, "a4").String()
 			}
 		}
+		if rapid.IntRange(0, 9).Draw(t, "longform") == 0 {
+			// The longest spellings of an address: every hextet written out
+			// with four digits, optionally a dotted-quad tail and a zone (the
+			// text of a valid prefix can be 49 bytes and more).
+			a := gen.Addr6().Draw(t, "a6long").As16()
+			var sb strings.Builder
+			groups := 8
+			dotted := rapid.Bool().Draw(t, "dotted")
+			if dotted {
+				groups = 6
+			}
+			for g := 0; g < groups; g++ {
+				if g > 0 {
+					sb.WriteByte(':')
+				}
+				fmt.Fprintf(&sb, "%02x%02x", a[2*g], a[2*g+1])
+			}
+			if dotted {
+				fmt.Fprintf(&sb, ":%d.%d.%d.%d", a[12], a[13], a[14], a[15])
+			}
+			ip = sb.String()
+			if rapid.IntRange(0, 3).Draw(t, "upper") == 0 {
+				ip = strings.ToUpper(ip)
+			}
+		}
 		switch rapid.IntRange(0, 5).Draw(t, "form") {
 		case 0, 1:
 			return PrefixCase{S: vp.S(ip)}
